@@ -75,8 +75,8 @@ Proof.
   destruct (ch 48 l && ((peek l =? 111)%N || (peek l =? 79)%N)).
   { destruct (read_based_number isOctalDigit l) as [s l']. reflexivity. }
   rewrite lx_read_while_hc. destruct (lx_read_while isDigit l) as [ip l1]. cbn [fst snd].
-  rewrite ch_hc, peek_hc.
-  destruct (ch 46 l1 && isDigit (peek l1)).
+  rewrite ch_hc.
+  destruct (ch 46 l1).
   - rewrite read_char_hc, lx_read_while_hc. destruct (lx_read_while isDigit (read_char l1)) as [fd l2]. cbn [fst snd].
     rewrite !ch_hc. destruct (ch 101 l2 || ch 69 l2); [|reflexivity].
     rewrite !read_char_hc, !cur_hc, !ch_hc.
@@ -619,7 +619,7 @@ Proof.
   unfold isWhitespace in H. repeat split; intros; lia.
 Qed.
 
-Lemma kont_ws w X : isWhitespace w = true -> kont (w :: X).
+Lemma kont_ws {g} w X : isWhitespace w = true -> kont g (w :: X).
 Proof. intro H. apply kont_cons; unfold isWhitespace, is_ident_char, isLetter, isDigit in *; lia. Qed.
 
 Lemma nic_ws w : isWhitespace w = true -> is_ident_char w = false.
@@ -755,12 +755,14 @@ Qed.
 (* numbers *)
 Lemma P_number0 ty lit gs X K l :
   relex_word ty lit = true -> (ty = T_INT \/ ty = T_FLOAT) -> (ty = T_FLOAT -> go_float_ok lit = true) ->
-  tsafe lit -> kont (rta X K) -> trv gs -> l_rest l = gs ++ rta (lit ++ X) K ->
+  tsafe lit -> is_ident_char (hd 0%N (rta X K)) = false ->
+  (hd 0%N (rta X K) = 46%N -> ty <> T_INT \/ forallb isDigit lit = false) ->
+  trv gs -> l_rest l = gs ++ rta (lit ++ X) K ->
   exists t l', lexes l [t] l' /\ t_type t = ty /\ t_lit t = lit /\ t_nl t = has_lf gs /\
                l_rest l' = rta X K.
 Proof.
-  intros H Hty Hfl Ts KK G Hl.
-  destruct (lex1_number _ _ (rta X K) H Hty Hfl KK) as (HD & L1 & _).
+  intros H Hty Hfl Ts KK K46 G Hl.
+  destruct (lex1_number _ _ (rta X K) H Hty Hfl KK K46) as (HD & L1 & _).
   destruct (digit_facts _ HD) as (F1 & F2 & F3 & _).
   assert (Ne : lit <> []) by (intro E; rewrite E in HD; discriminate HD).
   assert (Nt : ty <> T_EOF) by (destruct Hty; subst ty; discriminate).
@@ -1331,8 +1333,8 @@ Proof.
   repeat split; intros; subst; try assumption; intro; subst; apply NF; auto.
 Qed.
 
-Lemma kont_gap g body X K c : wgap g -> hd 0%N body = c -> sst c ->
-  (g = [] -> is_ident_char c = false /\ c <> 46%N) -> kont (rta (g ++ body ++ X) K).
+Lemma kont_gap {ge} g body X K c : wgap g -> hd 0%N body = c -> sst c ->
+  (g = [] -> is_ident_char c = false /\ c <> 46%N) -> kont ge (rta (g ++ body ++ X) K).
 Proof.
   intros Gg Hd [Os1 Os2] NF.
   destruct (gap_split g body X K c Gg Hd Os1 Os2) as (g' & E & _ & _ & E0 & E1 & Hc).
@@ -1355,7 +1357,7 @@ Qed.
 
 (* lexing the (trimmed) text of an expression behind any trivia *)
 Definition LxE (body : str) (e : expr) (fty : Z) : Prop :=
-  forall K, kont K -> forall gs l, trv gs -> l_rest l = gs ++ rta body K ->
+  forall K, kont e K -> forall gs l, trv gs -> l_rest l = gs ++ rta body K ->
     exists e' ts l', lexes l ts l' /\ l_rest l' = K /\
       (forall R, m_expr e' (ts ++ R) = Some R) /\ shape_expr e' = shape_expr e /\
       exists t0 ts0, ts = t0 :: ts0 /\ t_type t0 = fty /\ t_nl t0 = has_lf gs.
@@ -1369,7 +1371,7 @@ Definition PJ (ops : list wop) (e : expr) (c : N) (fty : Z) (lead : list str) : 
 
 (* the same behind a gap of the writer, followed by more text *)
 Lemma LxE_gap g body e fty c X K l : LxE body e fty -> wgap g -> hd 0%N body = c -> ost c ->
-  kont (rta X K) -> l_rest l = rta (g ++ body ++ X) K ->
+  kont e (rta X K) -> l_rest l = rta (g ++ body ++ X) K ->
   exists e' ts l', lexes l ts l' /\ l_rest l' = rta X K /\
     (forall R, m_expr e' (ts ++ R) = Some R) /\ shape_expr e' = shape_expr e /\
     exists t0 ts0, ts = t0 :: ts0 /\ t_type t0 = fty /\ (has_lf g = false -> t_nl t0 = false).
@@ -1395,7 +1397,7 @@ Lemma notin_sp : ~ In LF [32%N]. Proof. intros [H|[]]. discriminate H. Qed.
 (* a single token: [WComments cs; WMapping p; ... w] *)
 Lemma PJ_atom ops cs w ty lit e c (mk : token -> expr) :
   (forall b pd lv mp, prun (ps b pd lv mp) ops = ps (b ++ G pd lv cs ++ w) [] lv mp) -> NLF cs ->
-  (forall K, kont K -> forall gs l, trv gs -> l_rest l = gs ++ rta w K ->
+  (forall K, kont e K -> forall gs l, trv gs -> l_rest l = gs ++ rta w K ->
      exists t l', lexes l [t] l' /\ t_type t = ty /\ t_lit t = lit /\ t_nl t = has_lf gs /\ l_rest l' = K) ->
   hd 0%N w = c -> c <> 43%N -> c <> 45%N ->
   (forall t', t_type t' = ty -> t_lit t' = lit ->
@@ -1506,19 +1508,27 @@ Qed.
 Lemma digit_not_blank c : isDigit c = true -> c <> 32%N.
 Proof. unfold isDigit. lia. Qed.
 
+Lemma float_last_nb lit : go_float_ok lit = true -> last lit 0%N <> 32%N.
+Proof.
+  intro H. destruct (go_float_last _ H) as [D|D]; [apply digit_not_blank; exact D|rewrite D; discriminate].
+Qed.
+
 Lemma P_int t cs : (t_type t =? T_INT) && relex_word T_INT (t_lit t) && go_int_ok (t_lit t) = true ->
   blank_eol_free (t_lit t) = true -> t_comments t = cs -> NLF cs -> PE (EInt t) cs.
 Proof.
   intros H Bf Ecs Hcs. apply andb_true_iff in H as [H H3]. apply andb_true_iff in H as [H1 H2]. apply Z.eqb_eq in H1.
-  destruct (lex1_number _ _ [] H2 (or_introl eq_refl) ltac:(discriminate) kont_nil) as (HD & _).
+  destruct (lex1_number _ _ [] H2 (or_introl eq_refl) ltac:(discriminate) eq_refl ltac:(intro Q; discriminate Q)) as (HD & _).
   destruct (digit_ostart _ HD) as (Os & C1 & C2).
   exists (hd 0%N (t_lit t)). split; [exact (digit_ost _ HD)|].
   cbn [write_expr first_type]. rewrite H1.
   apply (PJ_atom _ cs (t_lit t) T_INT (t_lit t) _ _ (fun t' => EInt t')).
   - intros b pd lv mp. rewrite Ecs. psimp. rewrite <- app_assoc. reflexivity.
   - exact Hcs.
-  - intros K HK gs l Tg Hl. rewrite <- (app_nil_r (t_lit t)) in Hl.
-    exact (P_number0 _ _ gs [] K l H2 (or_introl eq_refl) ltac:(discriminate) (conj Bf (go_int_last _ H3)) HK Tg Hl).
+  - intros K [HK1 HK2] gs l Tg Hl. rewrite <- (app_nil_r (t_lit t)) in Hl.
+    assert (K46 : hd 0%N (rta [] K) = 46%N -> T_INT <> T_INT \/ forallb isDigit (t_lit t) = false).
+    { intro Q. right. apply dot_ok_int. exact (HK2 Q). }
+    exact (P_number0 _ _ gs [] K l H2 (or_introl eq_refl) ltac:(discriminate) (conj Bf (go_int_last _ H3))
+             HK1 K46 Tg Hl).
   - reflexivity.
   - exact C1.
   - exact C2.
@@ -1531,16 +1541,18 @@ Lemma P_float t cs : (t_type t =? T_FLOAT) && relex_word T_FLOAT (t_lit t) && go
   blank_eol_free (t_lit t) = true -> t_comments t = cs -> NLF cs -> PE (EFloat t) cs.
 Proof.
   intros H Bf Ecs Hcs. apply andb_true_iff in H as [H H3]. apply andb_true_iff in H as [H1 H2]. apply Z.eqb_eq in H1.
-  destruct (lex1_number _ _ [] H2 (or_intror eq_refl) (fun _ => H3) kont_nil) as (HD & _).
+  destruct (lex1_number _ _ [] H2 (or_intror eq_refl) (fun _ => H3) eq_refl ltac:(intro Q; discriminate Q)) as (HD & _).
   destruct (digit_ostart _ HD) as (Os & C1 & C2).
   exists (hd 0%N (t_lit t)). split; [exact (digit_ost _ HD)|].
   cbn [write_expr first_type]. rewrite H1.
   apply (PJ_atom _ cs (t_lit t) T_FLOAT (t_lit t) _ _ (fun t' => EFloat t')).
   - intros b pd lv mp. rewrite Ecs. psimp. rewrite <- app_assoc. reflexivity.
   - exact Hcs.
-  - intros K HK gs l Tg Hl. rewrite <- (app_nil_r (t_lit t)) in Hl.
+  - intros K [HK1 _] gs l Tg Hl. rewrite <- (app_nil_r (t_lit t)) in Hl.
+    assert (K46 : hd 0%N (rta [] K) = 46%N -> T_FLOAT <> T_INT \/ forallb isDigit (t_lit t) = false).
+    { intros _. left. discriminate. }
     exact (P_number0 _ _ gs [] K l H2 (or_intror eq_refl) (fun _ => H3)
-             (conj Bf (digit_not_blank _ (go_float_last _ H3))) HK Tg Hl).
+             (conj Bf (float_last_nb _ H3)) HK1 K46 Tg Hl).
   - reflexivity.
   - exact C1.
   - exact C2.
@@ -1646,8 +1658,8 @@ Lemma hd_app_ost (body rest : str) c : ost c -> hd 0%N body = c -> hd 0%N (body 
 Proof. intros Os Hd. rewrite (hd_app_ne _ _ (ostart_ne _ _ (ost_ostart' _ Os) Hd)). exact Hd. Qed.
 
 (* text that starts with an operator behind a non-empty gap *)
-Lemma kont_gap_ne g s X K : wgap g -> g <> [] -> s <> [] -> isWhitespace (hd 0%N s) = false -> hd 0%N s <> 0%N ->
-  kont (rta (g ++ s ++ X) K).
+Lemma kont_gap_ne {ge} g s X K : wgap g -> g <> [] -> s <> [] -> isWhitespace (hd 0%N s) = false -> hd 0%N s <> 0%N ->
+  kont ge (rta (g ++ s ++ X) K).
 Proof.
   intros Gg Ne Ns W Z.
   destruct (gap_split g s X K _ Gg eq_refl W Z) as (g' & E & _ & _ & _ & E1 & _).
@@ -1671,9 +1683,10 @@ Lemma PJ_infix opsL gL cL tyL leadL mid cs s ty opsR gR cR tyR leadR t (mk : tok
      (forall R, m_expr eL (tsL ++ R) = Some R) -> (forall R, m_expr eR (tsR ++ R) = Some R) ->
      m_expr (mk t' eL eR) (tsL ++ t' :: tsR ++ R) = Some R) ->
   (forall t' eL eR, shape_expr (mk t' eL eR) = mk (norm_tok t') (shape_expr eL) (shape_expr eR)) ->
+  dot_ok (mk t gL gR) = false ->
   PJ (opsL ++ mid ++ opsR) (mk t gL gR) cL tyL leadL.
 Proof.
-  intros JL JR OsL OsR Wm Hcs T Ty Li M S b pd lv mp Hlv Hpd.
+  intros JL JR OsL OsR Wm Hcs T Ty Li M S DK b pd lv mp Hlv Hpd.
   destruct (JL b pd lv mp Hlv Hpd) as (g & body & W & Gg & Gn & Gl & Hd & Lx).
   set (gm := G [32%N] lv cs).
   assert (Ggm : wgap gm) by (apply G_gap; [exact indent_blank|exact pend_ok_sp|exact Hcs]).
@@ -1692,7 +1705,7 @@ Proof.
     intro E. rewrite <- app_assoc. exact (Gn2 E). }
   destruct (P_punct ty s gm (g2 ++ body2) K l1 T PB Ggm R1) as (t' & l2 & L2 & Ty' & Li' & _ & R2).
   rewrite <- (app_nil_r body2) in R2.
-  destruct (LxE_gap g2 body2 gR tyR cR [] K l2 Lx2 Gg2 Hd2 OsR HK R2)
+  destruct (LxE_gap g2 body2 gR tyR cR [] K l2 Lx2 Gg2 Hd2 OsR (kont_sub _ _ _ HK DK) R2)
     as (eR & tsR & l3 & L3 & R3 & MR & SR & _).
   exists (mk t' eL eR), (tsL ++ [t'] ++ tsR), l3.
   split; [eapply lexes_app; [exact L1|eapply lexes_app; eassumption]|]. split; [exact R3|].
@@ -1730,6 +1743,7 @@ Proof.
   - intros t' eL eR tsL tsR R Ty' Li' ML MR. cbn [m_expr]. rewrite Ty', Hb, Li', str_eqb_refl. cbn [negb].
     rewrite ML, eat_tok_refl. apply MR.
   - reflexivity.
+  - reflexivity.
 Qed.
 
 Lemma P_assign t l v ll lv0 : t_type t = T_ASSIGN -> t_lit t = [61%N] -> NLF (t_comments t) ->
@@ -1757,6 +1771,7 @@ Proof.
   - intros t' eL eR tsL tsR R Ty' Li' ML MR. cbn [m_expr]. rewrite Ty'.
     change (T_ASSIGN =? T_ASSIGN) with true. cbn [negb].
     rewrite ML, eat_tok_refl. apply MR.
+  - reflexivity.
   - reflexivity.
 Qed.
 
@@ -1788,10 +1803,11 @@ Proof.
   - intros t' eL eR tsL tsR R Ty' Li' ML MR. cbn [m_expr]. rewrite Ty', Want, str_eqb_refl. cbn [negb].
     rewrite ML, eat_tok_refl. apply MR.
   - reflexivity.
+  - reflexivity.
 Qed.
 
-Lemma kont_gap_char g c X K : wgap g -> isWhitespace c = false -> c <> 0%N ->
-  is_ident_char c = false -> c <> 46%N -> kont (rta (g ++ c :: X) K).
+Lemma kont_gap_char {ge} g c X K : wgap g -> isWhitespace c = false -> c <> 0%N ->
+  is_ident_char c = false -> c <> 46%N -> kont ge (rta (g ++ c :: X) K).
 Proof.
   intros Gg W Z N1 N2.
   destruct (gap_split g [c] X K c Gg eq_refl W Z) as (g' & E & _ & _ & E0 & E1 & Hc).
@@ -1824,9 +1840,9 @@ Proof.
   change (40%N :: g2 ++ body2 ++ gc ++ [41%N]) with ([40%N] ++ g2 ++ body2 ++ gc ++ [41%N]) in Hl.
   destruct (P_punct0 T_LPAREN [40%N] gs _ K l type_text_lparen ltac:(pfree) Tg Hl)
     as (t1 & l1 & L1 & T1 & I1 & N1 & R1).
-  assert (KK : kont (rta (gc ++ [41%N]) K)).
-  { apply kont_gap_char; [exact Ggc|reflexivity|discriminate|reflexivity|discriminate]. }
-  destruct (LxE_gap g2 body2 e _ c (gc ++ [41%N]) K l1 Lx2 Gg2 Hd2 Oe KK R1)
+  assert (KK : forall g0, kont g0 (rta (gc ++ [41%N]) K)).
+  { intro g0. apply kont_gap_char; [exact Ggc|reflexivity|discriminate|reflexivity|discriminate]. }
+  destruct (LxE_gap g2 body2 e _ c (gc ++ [41%N]) K l1 Lx2 Gg2 Hd2 Oe (KK _) R1)
     as (e0 & ts0 & l2 & L2 & R2 & M0 & S0 & _).
   rewrite <- (app_nil_r [41%N]) in R2.
   destruct (P_punct T_RPAREN [41%N] gc [] K l2 type_text_rparen ltac:(pfree) Ggc R2)
@@ -1886,7 +1902,7 @@ Proof.
   { rewrite <- (app_nil_r body2). apply (pbnd_gap (b ++ g) (t_lit t) g2 body2 [] K cr Gg2 Hd2 Or). exact Gn2. }
   destruct (P_punct0 (t_type t) (t_lit t) gs (g2 ++ body2) K l TT PB Tg Hl) as (t' & l1 & L1 & Ty1 & Li1 & Nl1 & R1).
   rewrite <- (app_nil_r body2) in R1.
-  destruct (LxE_gap g2 body2 r _ cr [] K l1 Lx2 Gg2 Hd2 Or HK R1) as (eR & tsR & l2 & L2 & R2 & MR & SR & _).
+  destruct (LxE_gap g2 body2 r _ cr [] K l1 Lx2 Gg2 Hd2 Or (kont_sub _ _ _ HK eq_refl) R1) as (eR & tsR & l2 & L2 & R2 & MR & SR & _).
   exists (EUnary t' (t_lit t) eR), ([t'] ++ tsR), l2.
   split; [eapply lexes_app; eassumption|]. split; [exact R2|]. split; [|split].
   - intro R. cbn [m_expr app]. rewrite Ty1, Tys, Li1, str_eqb_refl. cbn [negb orb].
@@ -1936,7 +1952,7 @@ Qed.
 Definition PEx (e : expr) : Prop := exists le, PE e le.
 
 Definition LxL (body : str) (es : list expr) : Prop :=
-  forall K, kont K -> forall l, l_rest l = rta body K ->
+  forall K, kont ENil K -> forall l, l_rest l = rta body K ->
     exists es' ts l', lexes l ts l' /\ l_rest l' = K /\
       (forall R, m_exprs m_expr es' (ts ++ R) = Some R) /\ map shape_expr es' = map shape_expr es.
 
@@ -1944,7 +1960,7 @@ Definition PL (ops : list wop) (es : list expr) : Prop :=
   forall b pd lv mp, 0 <= lv -> pend_ok pd -> exists body,
     prun (ps b pd lv mp) ops = ps (b ++ body) (match es with [] => pd | _ => [] end) lv mp /\ LxL body es.
 
-Lemma kont_comma X K : kont (rta (44%N :: X) K).
+Lemma kont_comma {g} X K : kont g (rta (44%N :: X) K).
 Proof. rewrite rta_cons_nb by discriminate. apply kont_cons; [reflexivity|discriminate]. Qed.
 
 Lemma PL_sep es : Forall PEx es ->
@@ -1958,7 +1974,7 @@ Proof.
     + exists (g ++ body). split.
       { rewrite sep_map_one. cbv beta. rewrite app_nil_r. exact W. }
       intros K HK l Hl. rewrite <- (app_nil_r body), app_assoc in Hl. rewrite <- app_assoc in Hl.
-      destruct (LxE_gap g body x _ cx [] K l Lx Gg Hd Ox HK Hl) as (e' & ts & l' & L & R & M & S & _).
+      destruct (LxE_gap g body x _ cx [] K l Lx Gg Hd Ox (kont_sub _ _ _ HK eq_refl) Hl) as (e' & ts & l' & L & R & M & S & _).
       exists [e'], ts, l'. repeat split; try assumption. cbn [map]. rewrite S. reflexivity.
     + destruct (IH ((b ++ g ++ body) ++ [44%N]) [32%N] lv mp Hlv pend_ok_sp) as (body2 & W2 & Lx2).
       exists ((g ++ body) ++ 44%N :: body2). split.
@@ -1978,9 +1994,9 @@ Proof.
       * cbn [map]. rewrite S1. f_equal. exact S3.
 Qed.
 
-Lemma kont_rparen' K : kont (rta [41%N] K).
+Lemma kont_rparen' {g} K : kont g (rta [41%N] K).
 Proof. rewrite rta_cons_nb by discriminate. apply kont_cons; [reflexivity|discriminate]. Qed.
-Lemma kont_rbracket' K : kont (rta [93%N] K).
+Lemma kont_rbracket' {g} K : kont g (rta [93%N] K).
 Proof. rewrite rta_cons_nb by discriminate. apply kont_cons; [reflexivity|discriminate]. Qed.
 
 Lemma P_call t f args lf : t_type t = T_LPAREN -> t_lit t = [40%N] -> NLF (t_comments t) ->
@@ -2003,9 +2019,9 @@ Proof.
   split; [exact Gg|]. split; [exact Gn|]. split; [exact Gl|].
   split; [apply hd_app_ost; assumption|].
   intros K HK gs l Tg Hl. rewrite rta_app in Hl.
-  assert (KK : kont (rta (gp ++ 40%N :: body2 ++ [41%N]) K)).
-  { apply kont_gap_char; [exact Ggp|reflexivity|discriminate|reflexivity|discriminate]. }
-  destruct (Lx _ KK gs l Tg Hl) as (eF & tsF & l1 & L1 & R1 & MF & SF & t0 & ts0 & E0 & Ty0 & Nl0).
+  assert (KK : forall g0, kont g0 (rta (gp ++ 40%N :: body2 ++ [41%N]) K)).
+  { intro g0. apply kont_gap_char; [exact Ggp|reflexivity|discriminate|reflexivity|discriminate]. }
+  destruct (Lx _ (KK _) gs l Tg Hl) as (eF & tsF & l1 & L1 & R1 & MF & SF & t0 & ts0 & E0 & Ty0 & Nl0).
   change (gp ++ 40%N :: body2 ++ [41%N]) with (gp ++ [40%N] ++ body2 ++ [41%N]) in R1.
   destruct (P_punct T_LPAREN [40%N] gp _ K l1 type_text_lparen ltac:(pfree) Ggp R1)
     as (t1 & l2 & L2 & Ty1 & Li1 & _ & R2).
@@ -2040,9 +2056,9 @@ Proof.
   split; [exact Gg|]. split; [exact Gn|]. split; [exact Gl|].
   split; [apply hd_app_ost; assumption|].
   intros K HK gs l Tg Hl. rewrite rta_app in Hl.
-  assert (KK : kont (rta (gp ++ 91%N :: g2 ++ body2 ++ [93%N]) K)).
-  { apply kont_gap_char; [exact Ggp|reflexivity|discriminate|reflexivity|discriminate]. }
-  destruct (Lx _ KK gs l Tg Hl) as (eO & tsO & l1 & L1 & R1 & MO & SO & t0 & ts0 & E0 & Ty0 & Nl0).
+  assert (KK : forall g0, kont g0 (rta (gp ++ 91%N :: g2 ++ body2 ++ [93%N]) K)).
+  { intro g0. apply kont_gap_char; [exact Ggp|reflexivity|discriminate|reflexivity|discriminate]. }
+  destruct (Lx _ (KK _) gs l Tg Hl) as (eO & tsO & l1 & L1 & R1 & MO & SO & t0 & ts0 & E0 & Ty0 & Nl0).
   change (gp ++ 91%N :: g2 ++ body2 ++ [93%N]) with (gp ++ [91%N] ++ g2 ++ body2 ++ [93%N]) in R1.
   destruct (P_punct T_LBRACKET [91%N] gp _ K l1 type_text_lbracket ltac:(pfree) Ggp R1)
     as (t1 & l2 & L2 & Ty1 & Li1 & _ & R2).
@@ -2061,27 +2077,23 @@ Proof.
 Qed.
 
 
-Lemma kont_dot gp gi v K : wgap gp -> wgap gi -> isLetter (hd 0%N v) = true ->
-  kont (rta (gp ++ 46%N :: gi ++ v) K).
+Lemma kont_dot {ge} gp gi v K : wgap gp -> wgap gi -> isLetter (hd 0%N v) = true ->
+  (gp = [] -> dot_ok ge = true) -> kont ge (rta (gp ++ 46%N :: gi ++ v) K).
 Proof.
-  intros Gp Gi HL.
+  intros Gp Gi HL Hdot.
   destruct (gap_split gp [46%N] (gi ++ v) K 46%N Gp eq_refl eq_refl ltac:(discriminate)) as (g' & E & _ & _ & E0 & E1 & _).
   change (gp ++ 46%N :: gi ++ v) with (gp ++ [46%N] ++ gi ++ v). rewrite E.
   destruct gp as [|x g0].
-  - rewrite (E0 eq_refl). cbn [app]. rewrite rta_cons_nb by discriminate. cbn [rta].
-    split; cbn [hd tl]; [reflexivity|]. intros _.
-    rewrite <- (app_nil_r v).
-    destruct (hd_rta_gap gi v [] K _ Gi eq_refl (letter_sst _ HL)) as [[_ W]|[_ ->]].
-    + unfold isWhitespace in W. unfold isDigit. lia.
-    + unfold isLetter in HL. unfold isDigit. lia.
+  - rewrite (E0 eq_refl). cbn [app]. rewrite rta_cons_nb by discriminate.
+    split; cbn [hd]; [reflexivity|]. intros _. apply Hdot. reflexivity.
   - destruct (E1 ltac:(discriminate)) as (w & r & -> & Hw). apply kont_ws. exact Hw.
 Qed.
 
 Lemma P_member_dot t o i lo : t_type t = T_DOT -> t_lit t = [46%N] -> NLF (t_comments t) ->
-  ident_lexical i = true -> NLF (t_comments (id_tok i)) ->
+  ident_lexical i = true -> NLF (t_comments (id_tok i)) -> obj_ok o = true ->
   PE o lo -> PE (EMember t o (EIdent i) false) lo.
 Proof.
-  intros Ty Li Hcs Hl3 Hci (co & Oo & Jo).
+  intros Ty Li Hcs Hl3 Hci Hob (co & Oo & Jo).
   unfold ident_lexical in Hl3. apply andb_true_iff in Hl3 as [Hi H3]. apply andb_true_iff in Hi as [H1 H2].
   apply Z.eqb_eq in H1. apply str_eqb_spec in H2.
   destruct (lex1_word _ _ [] H3 eq_refl ltac:(discriminate) ltac:(discriminate) eq_refl) as (HL & _).
@@ -2089,17 +2101,23 @@ Proof.
   cbn [write_expr first_type]. unfold write_ident. rewrite !app_nil_r.
   intros b pd lv mp Hlv Hpd.
   destruct (Jo b pd lv mp Hlv Hpd) as (g & body & W & Gg & Gn & Gl & Hd & Lx).
-  set (gp := G [] lv (t_comments t)).
-  assert (Ggp : wgap gp) by (apply G_gap; [exact indent_blank|exact pend_ok_nil|exact Hcs]).
+  (* the blank that keeps a decimal integer literal and the dot apart is part of the gap *)
+  set (bl := if is_decimal_int o then [32%N] else @nil N).
+  set (gp := bl ++ G [] lv (t_comments t)).
+  assert (Ggp : wgap gp).
+  { apply wgap_app; [unfold bl; destruct (is_decimal_int o); [apply wgap_allws; reflexivity|apply wgap_nil]|].
+    apply G_gap; [exact indent_blank|exact pend_ok_nil|exact Hcs]. }
   set (gi := G [] lv (t_comments (id_tok i))).
   assert (Ggi : wgap gi) by (apply G_gap; [exact indent_blank|exact pend_ok_nil|exact Hci]).
   exists g, (body ++ gp ++ 46%N :: gi ++ id_value i). split.
-  { rewrite prun_app, W. psimp. fold gp. fold gi. cbn [app].
-    f_equal. rewrite <- ?app_assoc. cbn [app]. rewrite <- ?app_assoc. reflexivity. }
+  { rewrite prun_app, W. unfold gp, bl. destruct (is_decimal_int o); cbn [negb andb app]; psimp; fold gi; cbn [app];
+    f_equal; rewrite <- ?app_assoc; cbn [app]; rewrite <- ?app_assoc; reflexivity. }
   split; [exact Gg|]. split; [exact Gn|]. split; [exact Gl|].
   split; [apply hd_app_ost; assumption|].
   intros K HK gs l Tg Hl. rewrite rta_app in Hl.
-  destruct (Lx _ (kont_dot gp gi (id_value i) K Ggp Ggi HL) gs l Tg Hl)
+  assert (Hdot : gp = [] -> dot_ok o = true).
+  { unfold gp, bl, dot_ok. rewrite Hob. destruct (is_decimal_int o); [discriminate|reflexivity]. }
+  destruct (Lx _ (kont_dot gp gi (id_value i) K Ggp Ggi HL Hdot) gs l Tg Hl)
     as (eO & tsO & l1 & L1 & R1 & MO & SO & t0 & ts0 & E0 & Ty0 & Nl0).
   change (gp ++ 46%N :: gi ++ id_value i) with (gp ++ [46%N] ++ gi ++ id_value i) in R1.
   destruct (P_punct T_DOT [46%N] gp _ K l1 type_text_dot ltac:(pfree) Ggp R1)
@@ -2146,9 +2164,9 @@ Proof.
   destruct (P_punct0 T_LBRACKET [91%N] gs _ K l type_text_lbracket ltac:(pfree) Tg Hl)
     as (t1 & l2 & L2 & T1 & I1 & N1 & R2).
   rewrite rta_app in R2.
-  assert (KK : kont (rta (gc ++ [93%N]) K)).
-  { apply kont_gap_char; [exact Ggc|reflexivity|discriminate|reflexivity|discriminate]. }
-  destruct (Lx2 _ KK l2 R2) as (es' & tsA & l3 & L3 & R3 & MA & SA).
+  assert (KK : forall g0, kont g0 (rta (gc ++ [93%N]) K)).
+  { intro g0. apply kont_gap_char; [exact Ggc|reflexivity|discriminate|reflexivity|discriminate]. }
+  destruct (Lx2 _ (KK _) l2 R2) as (es' & tsA & l3 & L3 & R3 & MA & SA).
   rewrite <- (app_nil_r [93%N]) in R3.
   destruct (P_punct T_RBRACKET [93%N] gc [] K l3 type_text_rbracket ltac:(pfree) Ggc R3)
     as (t2 & l4 & L4 & T2 & I2 & _ & R4).
@@ -2166,7 +2184,7 @@ Qed.
 (* ---------- object literals ---------- *)
 
 Definition LxPR (body : str) (gl : list (expr * expr)) : Prop :=
-  forall K, kont K -> forall l, l_rest l = rta body K ->
+  forall K, kont ENil K -> forall l, l_rest l = rta body K ->
     exists ps' ts l', lexes l ts l' /\ l_rest l' = K /\
       (forall R, m_props m_expr ps' (ts ++ R) = Some R) /\ map shp ps' = map shp gl.
 
@@ -2174,7 +2192,7 @@ Definition PPR (ops : list wop) (gl : list (expr * expr)) : Prop :=
   forall b pd lv mp, 0 <= lv -> pend_ok pd -> exists body,
     prun (ps b pd lv mp) ops = ps (b ++ body) (match gl with [] => pd | _ => [] end) lv mp /\ LxPR body gl.
 
-Lemma kont_colon X K : kont (rta (58%N :: X) K).
+Lemma kont_colon {g} X K : kont g (rta (58%N :: X) K).
 Proof. rewrite rta_cons_nb by discriminate. apply kont_cons; [reflexivity|discriminate]. Qed.
 
 Lemma PPR_sep gl : Forall (fun kv => key_ok (fst kv) = true /\ PEx (fst kv) /\ PEx (snd kv)) gl ->
@@ -2186,7 +2204,7 @@ Proof.
   - cbn [fst snd] in *.
     destruct (Jk b pd lv mp Hlv Hpd) as (g & body & W & Gg & _ & _ & Hd & Lx).
     destruct (Jv ((b ++ g ++ body) ++ [58%N]) [32%N] lv mp Hlv pend_ok_sp) as (g2 & body2 & W2 & Gg2 & _ & _ & Hd2 & Lx2).
-    assert (ONE : forall X K, kont (rta X K) -> forall l, l_rest l = rta (g ++ body ++ 58%N :: g2 ++ body2 ++ X) K ->
+    assert (ONE : forall X K, kont ENil (rta X K) -> forall l, l_rest l = rta (g ++ body ++ 58%N :: g2 ++ body2 ++ X) K ->
               exists k' v' ts l', lexes l ts l' /\ l_rest l' = rta X K /\ key_ok k' = true /\
                 (forall R, exists R1, m_expr k' (ts ++ R) = Some R1 /\
                    exists tc R2, eat T_COLON R1 = Some (tc, R2) /\ m_expr v' R2 = Some R) /\
@@ -2195,7 +2213,7 @@ Proof.
       destruct (LxE_gap g body k _ ck (58%N :: g2 ++ body2 ++ X) K l Lx Gg Hd Ok (kont_colon _ _) Hl)
         as (k' & tsk & l1 & L1 & R1 & Mk & Sk & _).
       destruct (P_colon [] _ K l1 wgap_nil R1) as (tc & l2 & L2 & Tc & R2).
-      destruct (LxE_gap g2 body2 v _ cv X K l2 Lx2 Gg2 Hd2 Ov HK R2) as (v' & tsv & l3 & L3 & R3 & Mv & Sv & _).
+      destruct (LxE_gap g2 body2 v _ cv X K l2 Lx2 Gg2 Hd2 Ov (kont_sub _ _ _ HK eq_refl) R2) as (v' & tsv & l3 & L3 & R3 & Mv & Sv & _).
       exists k', v', (tsk ++ [tc] ++ tsv), l3.
       split; [eapply lexes_app; [exact L1|eapply lexes_app; eassumption]|]. split; [exact R3|].
       split; [rewrite (key_ok_shape _ _ Sk); exact Kk|]. split; [|split; assumption].
@@ -2260,9 +2278,9 @@ Proof.
   destruct (P_punct0 T_LBRACE [123%N] gs _ K l type_text_lbrace ltac:(pfree) Tg Hl)
     as (t1 & l2 & L2 & T1 & I1 & N1 & R2).
   rewrite rta_app in R2.
-  assert (KK : kont (rta (gc ++ [125%N]) K)).
-  { apply kont_gap_char; [exact Ggc|reflexivity|discriminate|reflexivity|discriminate]. }
-  destruct (Lx2 _ KK l2 R2) as (ps' & tsA & l3 & L3 & R3 & MA & SA).
+  assert (KK : forall g0, kont g0 (rta (gc ++ [125%N]) K)).
+  { intro g0. apply kont_gap_char; [exact Ggc|reflexivity|discriminate|reflexivity|discriminate]. }
+  destruct (Lx2 _ (KK _) l2 R2) as (ps' & tsA & l3 & L3 & R3 & MA & SA).
   rewrite <- (app_nil_r [125%N]) in R3.
   destruct (P_punct T_RBRACE [125%N] gc [] K l3 type_text_rbrace ltac:(pfree) Ggc R3)
     as (t2 & l4 & L4 & T2 & I2 & _ & R4).
@@ -2325,7 +2343,7 @@ Proof. rewrite has_lf_cons. reflexivity. Qed.
 (* ---------- let name [= value] ---------- *)
 
 Definition LxLet (body : str) (t : token) (name : ident) (v : expr) : Prop :=
-  forall K, kont K -> forall gs l, trv gs -> l_rest l = gs ++ rta body K ->
+  forall K, kont ENil K -> forall gs l, trv gs -> l_rest l = gs ++ rta body K ->
     exists t1 n' v' ts l', lexes l (t1 :: id_tok n' :: ts) l' /\ l_rest l' = K /\
       t_type t1 = T_LET /\ norm_tok t1 = norm_tok t /\ t_nl t1 = has_lf gs /\
       (forall R, m_ident n' (id_tok n' :: R) = Some R) /\ tmap_ident norm_tok n' = tmap_ident norm_tok name /\
@@ -2391,7 +2409,7 @@ Proof.
     destruct (P_punct T_ASSIGN [61%N] [32%N] (g2 ++ body2) K l2 type_text_assign PB wgap_sp R2)
       as (t3 & l3 & L3 & Ty3 & _ & _ & R3).
     rewrite <- (app_nil_r body2) in R3.
-    destruct (LxE_gap g2 body2 v _ cv [] K l3 Lx Gg2 Hd2 Ov HK R3) as (v' & tsv & l4 & L4 & R4 & Mv & Sv & _).
+    destruct (LxE_gap g2 body2 v _ cv [] K l3 Lx Gg2 Hd2 Ov (kont_sub _ _ _ HK eq_refl) R3) as (v' & tsv & l4 & L4 & R4 & Mv & Sv & _).
     exists t1, (mkident t2 (id_value name)), v', (t3 :: tsv), l4. cbn [id_tok].
     split; [exact (lexes_app _ _ _ _ _ L1 (lexes_app _ _ _ _ _ L2 (lexes_app _ _ _ _ _ L3 L4)))|].
     split; [exact R4|]. split; [exact Ty1|].
@@ -2464,7 +2482,7 @@ Proof.
   rewrite E in Hl. exact (Lx (rta X K) g' l T' Hl).
 Qed.
 
-Lemma kont_semi' X K : kont (rta (59%N :: X) K).
+Lemma kont_semi' {g} X K : kont g (rta (59%N :: X) K).
 Proof. rewrite rta_cons_nb by discriminate. apply kont_cons; [reflexivity|discriminate]. Qed.
 
 Lemma P_sexpr e le : PE e le -> is_enil e = false -> statement_keyword (first_type e) = false -> PS (SExpr e).
@@ -3008,7 +3026,7 @@ Qed.
 (* ---------- for ---------- *)
 
 Definition LxOpt (txt : str) (e : expr) : Prop :=
-  forall K, kont K -> forall l, l_rest l = rta txt K ->
+  forall K, kont ENil K -> forall l, l_rest l = rta txt K ->
     exists e' ts l', lexes l ts l' /\ l_rest l' = K /\
       (forall R, (if is_enil e' then Some (ts ++ R) else m_expr e' (ts ++ R)) = Some R) /\
       shape_expr e' = shape_expr e.
@@ -3025,7 +3043,7 @@ Proof.
   - destruct (J eq_refl) as (c & Oc & Je). destruct (Je b pd lv mp Hlv Hpd) as (g & body & W & Gg & _ & _ & Hd & Lx).
     exists (g ++ body). split; [cbn [negb]; rewrite app_nil_r; exact W|].
     intros K HK l Hl. rewrite <- (app_nil_r body) in Hl.
-    destruct (LxE_gap g body e _ c [] K l Lx Gg Hd Oc HK Hl) as (e' & ts & l' & L & R & M & S & _).
+    destruct (LxE_gap g body e _ c [] K l Lx Gg Hd Oc (kont_sub _ _ _ HK eq_refl) Hl) as (e' & ts & l' & L & R & M & S & _).
     exists e', ts, l'. split; [exact L|]. split; [exact R|]. split; [|exact S].
     intro R0. rewrite (is_enil_shape _ _ S), Ee. apply M.
 Qed.
@@ -3073,14 +3091,14 @@ Proof.
   destruct (Lxi _ (kont_semi' _ K) l2 R2) as (i' & tsi & l3 & L3 & R3 & Mi & Si).
   destruct (P_semi [] _ K l3 wgap_nil R3) as (s1 & l4 & L4 & Ts1 & R4).
   rewrite rta_app in R4.
-  assert (K2 : kont (rta (spn c ++ 59%N :: tu ++ spn u ++ 41%N :: gb ++ tb) K)).
-  { apply kont_gap_char; [apply spn_gap|reflexivity|discriminate|reflexivity|discriminate]. }
-  destruct (Lxc _ K2 l4 R4) as (c' & tsc & l5 & L5 & R5 & Mc & Sc).
+  assert (K2 : forall g0, kont g0 (rta (spn c ++ 59%N :: tu ++ spn u ++ 41%N :: gb ++ tb) K)).
+  { intro ge0. apply kont_gap_char; [apply spn_gap|reflexivity|discriminate|reflexivity|discriminate]. }
+  destruct (Lxc _ (K2 _) l4 R4) as (c' & tsc & l5 & L5 & R5 & Mc & Sc).
   destruct (P_semi (spn c) _ K l5 (spn_gap c) R5) as (s2 & l6 & L6 & Ts2 & R6).
   rewrite rta_app in R6.
-  assert (K3 : kont (rta (spn u ++ 41%N :: gb ++ tb) K)).
-  { apply kont_gap_char; [apply spn_gap|reflexivity|discriminate|reflexivity|discriminate]. }
-  destruct (Lxu _ K3 l6 R6) as (u' & tsu & l7 & L7 & R7 & Mu & Su).
+  assert (K3 : forall g0, kont g0 (rta (spn u ++ 41%N :: gb ++ tb) K)).
+  { intro ge0. apply kont_gap_char; [apply spn_gap|reflexivity|discriminate|reflexivity|discriminate]. }
+  destruct (Lxu _ (K3 _) l6 R6) as (u' & tsu & l7 & L7 & R7 & Mu & Su).
   change (spn u ++ 41%N :: gb ++ tb) with (spn u ++ [41%N] ++ gb ++ tb) in R7.
   destruct (P_punct T_RPAREN [41%N] (spn u) _ K l7 type_text_rparen ltac:(pfree) (spn_gap u) R7)
     as (tr & l8 & L8 & Tr & _ & _ & R8).
@@ -3510,7 +3528,7 @@ Section Step.
       cbn [wfx wf_expr] in Hw.
       destruct (m_expr e1 ts) as [r1|] eqn:E1; [|discriminate H].
       pose proof (m_expr_TP _ _ _ E1 F) as F1.
-      apply andb_true_iff in Hw as [Hw W2]. apply andb_true_iff in Hw as [_ W1].
+      apply andb_true_iff in Hw as [Hw W2]. apply andb_true_iff in Hw as [Wlv W1].
       pose proof (IHe_wf e1 ltac:(lia) _ _ E1 W1 F) as Jo.
       destruct computed.
       + destruct (t_type t =? T_LBRACKET) eqn:C1; cbn [negb] in H; [|discriminate H]. apply Z.eqb_eq in C1.
@@ -3526,7 +3544,8 @@ Section Step.
         destruct e2; try discriminate H.
         destruct (m_ident_TP _ _ _ H F2) as [[Hi Hci] _].
         apply (P_member_dot indent indent_blank t e1 i (lead e1));
-          [exact C1|exact (TL_text _ _ Tt ltac:(rewrite C1; reflexivity))|exact Ct|exact Hi|exact Hci|exact Jo].
+          [exact C1|exact (TL_text _ _ Tt ltac:(rewrite C1; reflexivity))|exact Ct|exact Hi|exact Hci| |exact Jo].
+        apply obj_ok_level. exact Wlv.
     - (* EAssign *)
       cbn [wfx wf_expr] in Hw.
       destruct (t_type t =? T_ASSIGN) eqn:C1; cbn [negb] in H; [|discriminate H]. apply Z.eqb_eq in C1.
